@@ -1376,3 +1376,164 @@ Proof.
 Qed.
 
 End ParseJson.
+
+(** ** Step E: the lexer error lists play no part in parsing *)
+
+Definition et (t : ptok) : ptok := mkp [] (ptyl t).
+Definition erase (s : pstate) : pstate :=
+  mkSt (et (cur s)) (map et (rest s)) [] (perrs s) (jail s).
+Definition eres {A} (r : option (A * pstate)) : option (A * pstate) :=
+  match r with Some (a, s) => Some (a, erase s) | None => None end.
+
+Lemma erase_next s : erase (p_next s) = p_next (erase s).
+Proof. unfold p_next, erase. destruct (rest s); reflexivity. Qed.
+Lemma erase_add e s : erase (p_add e s) = p_add e (erase s).
+Proof. reflexivity. Qed.
+Lemma see_op_erase ops s : see_op ops (erase s) = see_op ops s.
+Proof. reflexivity. Qed.
+Lemma p_see_erase ty s : p_see ty (erase s) = p_see ty s.
+Proof. reflexivity. Qed.
+Lemma expect_op_erase op s : expect_op op (erase s) = (fst (expect_op op s), erase (snd (expect_op op s))).
+Proof.
+  unfold expect_op. change (jail (erase s)) with (jail s). destruct (jail s); [reflexivity|].
+  rewrite see_op_erase. destruct (see_op [op] s); cbn [fst snd]; [now rewrite erase_next|reflexivity].
+Qed.
+Lemma p_expect_erase ty s : p_expect ty (erase s) = (fst (p_expect ty s), erase (snd (p_expect ty s))).
+Proof.
+  unfold p_expect. change (jail (erase s)) with (jail s). destruct (jail s); [reflexivity|].
+  rewrite p_see_erase. destruct (p_see ty s); cbn [fst snd]; [now rewrite erase_next|reflexivity].
+Qed.
+
+Section Erase.
+Context {F : Type}.
+Variable pf : list N -> option F.
+
+Lemma psv_erase t s : parse_string_value (et t) (erase s)
+  = (fst (parse_string_value t s), erase (snd (parse_string_value t s))).
+Proof. unfold parse_string_value. change (plit (et t)) with (plit t). destruct (go_unquote (plit t)); reflexivity. Qed.
+Lemma pfv_erase t s : parse_float_value pf (et t) (erase s)
+  = (fst (parse_float_value pf t s), erase (snd (parse_float_value pf t s))).
+Proof. unfold parse_float_value. change (plit (et t)) with (plit t). destruct (pf (plit t)); reflexivity. Qed.
+
+Lemma pil_erase f : forall s acc,
+  @parse_ident_list F f (erase s) acc = eres (parse_ident_list f s acc).
+Proof.
+  induction f as [|f IH]; intros s acc; [reflexivity|]. cbn [parse_ident_list].
+  rewrite p_expect_erase. change (cur (erase s)) with (et (cur s)). change (plit (et (cur s))) with (plit (cur s)).
+  destruct (p_expect TIdent s) as [ok s1]. cbn [fst snd]. destruct (negb ok); [reflexivity|].
+  rewrite see_op_erase. destruct (see_op [[46]] s1); [|reflexivity].
+  now rewrite <- erase_next, IH.
+Qed.
+
+Lemma pv_body_erase
+      (poe : pstate -> list (okey * value) -> option (list (okey * value) * pstate))
+      (ple : pstate -> list value -> option (list value * pstate))
+      (pil : pstate -> list (list N) -> option (@value F * pstate)) :
+  (forall s a, poe (erase s) a = eres (poe s a)) ->
+  (forall s a, ple (erase s) a = eres (ple s a)) ->
+  (forall s a, pil (erase s) a = eres (pil s a)) ->
+  forall s, pv_body pf poe ple pil (erase s) = eres (pv_body pf poe ple pil s).
+Proof.
+  intros H1 H2 H3 s. unfold pv_body.
+  change (cur (erase s)) with (et (cur s)). change (pty (et (cur s))) with (pty (cur s)).
+  change (plit (et (cur s))) with (plit (cur s)).
+  change (lit_is (et (cur s))) with (lit_is (cur s)).
+  destruct (pty (cur s)); try reflexivity.
+  - rewrite <- erase_next.
+    destruct (list_N_eqb _ lit_true); [reflexivity|]. destruct (list_N_eqb _ lit_false); [reflexivity|].
+    destruct (list_N_eqb _ lit_null); reflexivity.
+  - apply H3.
+  - rewrite <- erase_next, psv_erase. destruct (parse_string_value (cur s) (p_next s)). reflexivity.
+  - now rewrite <- erase_next.
+  - rewrite <- erase_next, pfv_erase. destruct (parse_float_value pf (cur s) (p_next s)). reflexivity.
+  - destruct (_ || _).
+    + rewrite <- erase_next. change (cur (erase (p_next s))) with (et (cur (p_next s))).
+      change (pty (et (cur (p_next s)))) with (pty (cur (p_next s))).
+      change (plit (et (cur (p_next s)))) with (plit (cur (p_next s))).
+      destruct (pty (cur (p_next s))); try reflexivity.
+      * now rewrite <- erase_next.
+      * rewrite <- erase_next, pfv_erase. destruct (parse_float_value pf _ _). reflexivity.
+    + destruct (lit_is (cur s) [123]).
+      { rewrite <- erase_next, H1. destruct (poe (p_next s) []) as [[es s2]|]; [|reflexivity].
+        cbn [eres]. now rewrite expect_op_erase. }
+      destruct (lit_is (cur s) [91]); [|reflexivity].
+      rewrite <- erase_next, H2. destruct (ple (p_next s) []) as [[es s2]|]; [|reflexivity].
+      cbn [eres]. now rewrite expect_op_erase.
+Qed.
+
+Lemma poe_body_erase (pv : pstate -> option (@value F * pstate))
+      (poe : pstate -> list (okey * value) -> option (list (okey * value) * pstate)) :
+  (forall s, pv (erase s) = eres (pv s)) ->
+  (forall s a, poe (erase s) a = eres (poe s a)) ->
+  forall s acc, poe_body pv poe (erase s) acc = eres (poe_body pv poe s acc).
+Proof.
+  intros H1 H2 s acc. unfold poe_body. rewrite see_op_erase. destruct (see_op [[125]] s); [reflexivity|].
+  rewrite !p_see_erase. destruct (negb _); [reflexivity|].
+  change (cur (erase s)) with (et (cur s)). change (pty (et (cur s))) with (pty (cur s)).
+  change (plit (et (cur s))) with (plit (cur s)). rewrite <- erase_next.
+  assert (Htail : forall (key : okey) s2,
+    match pv (snd (expect_op [58] (erase s2))) with
+    | None => None
+    | Some (v, st4) =>
+        let st5 := if see_op [[44]] st4 then p_next st4
+                   else if negb (see_op [[125]] st4) then snd (expect_op [44] st4) else st4 in
+        let acc' := acc ++ [(key, v)] in
+        if jail st5 then Some (acc', st5) else poe st5 acc'
+    end
+    = eres (match pv (snd (expect_op [58] s2)) with
+            | None => None
+            | Some (v, st4) =>
+                let st5 := if see_op [[44]] st4 then p_next st4
+                           else if negb (see_op [[125]] st4) then snd (expect_op [44] st4) else st4 in
+                let acc' := acc ++ [(key, v)] in
+                if jail st5 then Some (acc', st5) else poe st5 acc'
+            end)).
+  { intros key s2. rewrite expect_op_erase. cbn [snd]. rewrite H1.
+    destruct (pv (snd (expect_op [58] s2))) as [[v s4]|]; [|reflexivity]. cbn [eres]. cbv zeta.
+    rewrite !see_op_erase.
+    assert (E5 : (if see_op [[44]] s4 then p_next (erase s4)
+                  else if negb (see_op [[125]] s4) then snd (expect_op [44] (erase s4)) else erase s4)
+                 = erase (if see_op [[44]] s4 then p_next s4
+                          else if negb (see_op [[125]] s4) then snd (expect_op [44] s4) else s4)).
+    { destruct (see_op [[44]] s4); [now rewrite erase_next|].
+      destruct (negb _); [now rewrite expect_op_erase|reflexivity]. }
+    rewrite E5. set (s5 := if see_op [[44]] s4 then _ else _).
+    change (jail (erase s5)) with (jail s5). destruct (jail s5); [reflexivity|]. apply H2. }
+  destruct (ttype_eqb (pty (cur s)) TString).
+  - rewrite psv_erase. destruct (parse_string_value (cur s) (p_next s)) as [bs s2]. cbn [fst snd].
+    apply Htail.
+  - apply Htail.
+Qed.
+
+Lemma ple_body_erase (pv : pstate -> option (@value F * pstate))
+      (ple : pstate -> list value -> option (list value * pstate)) :
+  (forall s, pv (erase s) = eres (pv s)) ->
+  (forall s a, ple (erase s) a = eres (ple s a)) ->
+  forall s acc, ple_body pv ple (erase s) acc = eres (ple_body pv ple s acc).
+Proof.
+  intros H1 H2 s acc. unfold ple_body. rewrite see_op_erase. destruct (see_op [[93]] s); [reflexivity|].
+  rewrite H1. destruct (pv s) as [[v s1]|]; [|reflexivity]. cbn [eres].
+  rewrite !see_op_erase.
+  assert (E2 : (if see_op [[44]] s1 then p_next (erase s1)
+                else if negb (see_op [[93]] s1) then snd (expect_op [44] (erase s1)) else erase s1)
+               = erase (if see_op [[44]] s1 then p_next s1
+                        else if negb (see_op [[93]] s1) then snd (expect_op [44] s1) else s1)).
+  { destruct (see_op [[44]] s1); [now rewrite erase_next|].
+    destruct (negb _); [now rewrite expect_op_erase|reflexivity]. }
+  rewrite E2. set (s2 := if see_op [[44]] s1 then _ else _).
+  change (jail (erase s2)) with (jail s2). destruct (jail s2); [reflexivity|]. apply H2.
+Qed.
+
+Lemma parse_all_erase f :
+  (forall s, parse_value pf f (erase s) = eres (parse_value pf f s)) /\
+  (forall s a, parse_object_entries pf f (erase s) a = eres (parse_object_entries pf f s a)) /\
+  (forall s a, parse_list_entries pf f (erase s) a = eres (parse_list_entries pf f s a)).
+Proof.
+  induction f as [|f (IH1 & IH2 & IH3)]; [repeat split; reflexivity|].
+  split; [|split].
+  - intros s. rewrite !parse_value_S. apply pv_body_erase; auto. intros s0 a. apply pil_erase.
+  - intros s a. rewrite !parse_object_entries_S. now apply poe_body_erase.
+  - intros s a. rewrite !parse_list_entries_S. now apply ple_body_erase.
+Qed.
+
+End Erase.
